@@ -99,7 +99,7 @@ struct Ctx {
 	std::string cb_log;
 	// stress mode
 	std::atomic<int> finished{0};
-	std::atomic<long> registered{0}, fired{0};
+	std::atomic<long> registered{0}, fired{0}, progress{0};
 };
 
 static Obj *fresh(int id) {
@@ -316,8 +316,8 @@ static void lockstep(const vh::Lines &ls) {
 			std::unique_lock<std::mutex> lk(x->m);
 			x->job = job; x->has_job = true; x->done = false; x->asserted = false;
 			x->cv.notify_all();
-			if(!x->cv.wait_for(lk, std::chrono::seconds(3), [&] { return x->done; })) {
-				vh::oracle("deadlock", "%s() of agent %d did not return within 3 s (all other agents are suspended)", op_name(op), t);
+			if(!x->cv.wait_for(lk, std::chrono::seconds(5), [&] { return x->done; })) {
+				vh::oracle("deadlock", "%s() of agent %d did not return within 5 s (all other agents are suspended)", op_name(op), t);
 				fflush(stdout); _exit(96);
 			}
 		}
@@ -370,6 +370,7 @@ static void stress(const vh::Lines &ls) {
 		while(!go.load()) std::this_thread::yield();
 		try {
 			for(auto &tk : script[t]) {
+				c.progress++;
 				const std::string &o = tk[0];
 				int n = tk.size() > 2 ? atoi(tk[2].c_str()) : 0;
 				if(o == "on") { if(!online) do_on(); }
@@ -419,11 +420,15 @@ static void stress(const vh::Lines &ls) {
 			need_obj();
 			if(!online) do_on();
 			c.finished++;
+			// the clock for "lost grace period" runs only while ALL agents are draining and no callback completes
 			auto t0 = std::chrono::steady_clock::now();
+			long fired0 = c.fired.load();
 			while(!(c.finished.load() == c.K && c.fired.load() == c.registered.load())) {
 				tl_op = OP_QS; ag()->quiescent_state();
 				tl_op = OP_RUN; ag()->run(); tl_op = OP_NONE;
+				c.progress++;
 				if(giveup.load()) break;
+				if(c.finished.load() < c.K || c.fired.load() != fired0) { t0 = std::chrono::steady_clock::now(); fired0 = c.fired.load(); }
 				if(std::chrono::steady_clock::now() - t0 > std::chrono::seconds(8)) {
 					if(!giveup.exchange(true))
 						vh::oracle("lost-grace-period", "%ld of %ld registered callbacks not invoked after 8 s of all agents passing quiescent states and calling run()",
@@ -445,10 +450,15 @@ static void stress(const vh::Lines &ls) {
 	// watchdog for calls that never return
 	std::atomic<bool> alldone{false};
 	std::thread dog([&] {
-		for(int i = 0; i < 250 && !alldone.load(); i++) std::this_thread::sleep_for(std::chrono::milliseconds(100));
-		if(!alldone.load()) {
-			vh::oracle("deadlock", "stress run did not finish within 25 s (a call never returned)");
-			fflush(stdout); _exit(96);
+		// no API call completed for 20 s = some call never returns
+		long last = -1; int idle = 0;
+		while(!alldone.load()) {
+			std::this_thread::sleep_for(std::chrono::milliseconds(100));
+			long p = c.progress.load();
+			if(p != last) { last = p; idle = 0; } else if(++idle > 200) {
+				vh::oracle("deadlock", "stress run: no API call returned for 20 s (a call never returns)");
+				fflush(stdout); _exit(96);
+			}
 		}
 	});
 	for(auto &x : th) x.join();
